@@ -270,26 +270,38 @@ func (c *connection) sendWaitReply(callerCtx context.Context, msg Message) (Mess
 	timer := pool.GetTimer(timeout)
 	defer pool.PutTimer(timer)
 
-	select {
-	case res := <-ch:
-		return res.msg, res.err
-	case <-timer.C:
-		// Protocol timeout: T3 (data) — a transaction failure.
-		if isData {
-			c.metrics.incDataMsgErr()
-
-			if c.cfg.Load().autoS9F9 {
-				c.sendAutoS9F9(msg)
+	for {
+		select {
+		case res := <-ch:
+			// A data transaction is completed only by a data message or a Reject.req. A control
+			// response (Select/Deselect/Linktest.rsp) that merely reuses this transaction's System
+			// Bytes is not its reply: ignore it and keep waiting (T3 still bounds the wait), rather
+			// than returning a (nil, nil) the session layer cannot tell from success.
+			if isData && res.err == nil {
+				if _, ok := res.msg.(*DataMessage); !ok {
+					continue
+				}
 			}
-		}
 
-		return nil, timeoutErr
-	case <-e.ctx.Done():
-		// Connection teardown/drop — a lifecycle event, NOT a data transaction error, so a
-		// normal Close mid-transaction never inflates the cumulative error counter.
-		return nil, ErrConnClosed
-	case <-callerCtx.Done():
-		return nil, callerCtx.Err()
+			return res.msg, res.err
+		case <-timer.C:
+			// Protocol timeout: T3 (data) — a transaction failure.
+			if isData {
+				c.metrics.incDataMsgErr()
+
+				if c.cfg.Load().autoS9F9 {
+					c.sendAutoS9F9(msg)
+				}
+			}
+
+			return nil, timeoutErr
+		case <-e.ctx.Done():
+			// Connection teardown/drop — a lifecycle event, NOT a data transaction error, so a
+			// normal Close mid-transaction never inflates the cumulative error counter.
+			return nil, ErrConnClosed
+		case <-callerCtx.Done():
+			return nil, callerCtx.Err()
+		}
 	}
 }
 
